@@ -151,7 +151,7 @@ func TestVerifC09Downstream(t *testing.T) {
 	defer r.Finish()
 	scratch, _ := os.MkdirTemp("", "c09d-")
 	defer os.RemoveAll(scratch)
-	r.Rule("target.lmtp (per-recipient) and target.smtp against scripted servers on unix sockets: recipient lists of 1-3 from {ASCII, upper-case, IDN U-label, A-label, non-ASCII local part, duplicate}; next hop with / without SMTPUTF8; message with / without SMTPUTF8; faults {none, RCPT refused, per-recipient LMTP failure, DATA refused, connection dropped at DATA, body cannot be opened}; oracle: SetStatus keys = addresses accepted by AddRcpt, exact strings, each once; no panic. Non-trivial: distinct cases with a fault or a conversion")
+	r.Rule("target.lmtp (per-recipient) and target.smtp against scripted servers on unix sockets: recipient lists of 1-3 from {ASCII, upper-case, IDN U-label, A-label, non-ASCII local part, one mailbox under the U-label and the A-label form of its domain, duplicate}; next hop with / without SMTPUTF8; message with / without SMTPUTF8; faults {none, RCPT refused, per-recipient LMTP failure, DATA refused, connection dropped at DATA, body cannot be opened}; oracle: SetStatus keys = addresses accepted by AddRcpt, exact strings, each once; no panic. Non-trivial: distinct cases with a fault or a conversion")
 	if rp := r.Replay(); rp != nil {
 		var c c09dCase
 		if json.Unmarshal(rp, &c) != nil {
@@ -186,6 +186,9 @@ func TestVerifC09Downstream(t *testing.T) {
 		}
 	}
 	lists = append(lists, []string{"a@example.org", "a@example.org"})
+	// one mailbox named twice in one transaction, by the U-label and by the A-label form of
+	// its domain (both go on the wire alike when the next hop does not offer SMTPUTF8)
+	lists = append(lists, []string{"b@пример.рф", "b@xn--e1afmkfd.xn--p1ai"}, []string{"b@xn--e1afmkfd.xn--p1ai", "b@пример.рф"}, []string{"b@xn--e1afmkfd.xn--p1ai", "a@example.org", "b@пример.рф"})
 	faults := []string{"", "rcpt:a@example.org", "status:a@example.org", "status:b@xn--e1afmkfd.xn--p1ai", "status:b@пример.рф", "data5", "drop-data"}
 	idx := 0
 	for _, lmtp := range []bool{true, false} {
